@@ -183,6 +183,23 @@ def insertion_configs(rows_dim, cols_dim, n, seed, allow_diff=True, max_ins=2):
         return dimcfg(xins=ins)
 
     out = []
+
+    def rich(dim, on_view):
+        """subtotal with two addends, difference with one subtrahend, difference with two"""
+        valid = [i for p, i in enumerate(dim["ids"], 1) if p not in dim["miss"]]
+        if len(valid) < 3:
+            return None
+        a, b, c = valid[0], valid[1], valid[-1]
+        ins = [insertion("R1", "top", [a, b], id=21),
+               insertion("R2", b, [a, b], [c], id=22),
+               insertion("R3", "bottom", [c], [a, b], id=23)]
+        return dimcfg(vins=ins) if on_view else dimcfg(xins=ins)
+
+    if allow_diff:
+        rr = rich(rows_dim, True) if can(rows_dim) else None
+        rc = rich(cols_dim, False) if can(cols_dim) else None
+        if rr or rc:
+            out.append(config(rr or dimcfg(), rc or dimcfg()))
     for _ in range(n):
         r = dc_for(rows_dim, force=True) if can(rows_dim) else dimcfg()
         c = dc_for(cols_dim, force=not can(rows_dim)) if can(cols_dim) else dimcfg()
